@@ -7,7 +7,7 @@ from ..common import chunks, exc_name, generic_replay, pool_map
 from .C12 import ident, make_msg
 
 RULE = ('histories (length <= 12) of documented edits on a real MidiFile - add_track, tracks.append / del tracks[i], track.append / '
-        'del track[j], msg.time = t, mid.type = n - interleaved with observations (merged_track, list(mid), length, save, play); '
+        'del track[j], msg.time = t, swapping neighbours, moving ticks between neighbours, mid.type = n - interleaved with observations (merged_track, list(mid), length, save, play); '
         'every observation is compared with the same observation on a MidiFile built afresh from deep copies of the current '
         'contents (the property oracle) and merged_track with the model; all histories of length <= 4 over a reduced alphabet '
         'exhaustively. Distinct by the op list; non-trivial = an edit after an observation')
@@ -76,6 +76,18 @@ def run_history(ops):
             elif k == 'settype':
                 mid.type = op[1]
                 lines.append('done')
+            elif k == 'swapmsgs':
+                t = mid.tracks[op[1]]
+                t[op[2]], t[op[2] + 1] = t[op[2] + 1], t[op[2]]
+                lines.append('done')
+            elif k == 'shifttime':
+                # move ticks between neighbouring messages: count and total length of the track unchanged
+                t = mid.tracks[op[1]]
+                a, b = t[op[2]], t[op[2] + 1]
+                if b.time >= op[3]:
+                    a.time += op[3]
+                    b.time -= op[3]
+                lines.append('done')
             else:
                 got = observe(mid, k)
                 fresh = mido.MidiFile(type=1, ticks_per_beat=mid.ticks_per_beat, tracks=copy.deepcopy(mid.tracks))
@@ -119,6 +131,10 @@ def enc(op):
         return 'fop removemsg %d %d' % (op[1], op[2])
     if k == 'settime':
         return 'fop settime %d %d %d' % op[1:]
+    if k == 'swapmsgs':
+        return 'fop swapmsgs %d %d' % op[1:]
+    if k == 'shifttime':
+        return 'fop shifttime %d %d %d' % op[1:]
     if k == 'addtrack':
         return 'fop addtrack'
     if k == 'merged':
@@ -142,6 +158,23 @@ def gen(ck):
                 continue
             hs.append(list(h) + [('merged',), ('save',)])
     ck.exhaustive['histories of length <= 3 (quick) / <= 4 (thorough) over an 11-letter op alphabet'] = True
+    # edits that keep every track's message count and total length: two tracks, an observation, then ticks moved between
+    # neighbours or neighbours swapped, so that a message crosses one of the other track
+    for _ in range(600 if ck.tier == 'quick' else 20000):
+        h = []
+        for _t in range(rng.randint(2, 3)):
+            h.append(('appendtrack', [(next(counter), 0, rng.choice([0, 1, 2, 3, 5, 8])) for _ in range(rng.randint(2, 4))]))
+        h.append((rng.choice(OBS),))
+        for _e in range(rng.randint(1, 3)):
+            if rng.random() < 0.6:
+                h.append(('shifttime', rng.randint(0, 2), rng.randint(0, 2), rng.choice([1, 2, 3, 5])))
+            else:
+                h.append(('swapmsgs', rng.randint(0, 2), rng.randint(0, 2)))
+            if rng.random() < 0.5:
+                h.append((rng.choice(OBS),))
+        h.append(('merged',))
+        h.append((rng.choice(OBS),))
+        hs.append(h)
     for _ in range(3000 if ck.tier == 'quick' else 60000):
         h = []
         ntr = 0
@@ -173,6 +206,10 @@ def gen(ck):
                 h.append(('settime', rng.randint(0, max(ntr - 1, 0)), rng.randint(0, 3), rng.choice([0, 1, 9, 1000])))
             elif r < 0.67:
                 h.append(('settype', rng.choice([0, 1, 1, 2])))
+            elif r < 0.72:
+                h.append(('swapmsgs', rng.randint(0, max(ntr - 1, 0)), rng.randint(0, 3)))
+            elif r < 0.78:
+                h.append(('shifttime', rng.randint(0, max(ntr - 1, 0)), rng.randint(0, 3), rng.choice([1, 1, 3, 5, 480])))
             else:
                 h.append((rng.choice(OBS),))
         h.append(('merged',))
